@@ -307,11 +307,22 @@ class ACSE:
 
         return isinstance(primitive, abort_classes[abort_type])
 
-    def is_release_requested(self) -> bool:
-        """Return ``True`` if an A-RELEASE request has been received."""
+    def is_release_requested(self, consume: bool = True) -> bool:
+        """Return ``True`` if an A-RELEASE request has been received.
+
+        Parameters
+        ----------
+        consume : bool, optional
+            If ``True`` (default) then the A-RELEASE indication is removed
+            from the queue, in which case the caller must respond to it. If
+            ``False`` then the indication is left for the association's
+            reactor to respond to.
+        """
         primitive = self.dul.peek_next_pdu()
         if isinstance(primitive, A_RELEASE) and primitive.result is None:
-            _ = self.dul.receive_pdu(wait=False)
+            if consume:
+                _ = self.dul.receive_pdu(wait=False)
+
             return True
 
         return False
